@@ -29,7 +29,12 @@ func (g *G) count() int {
 	}
 	return g.n
 }
-func (g *G) f0() bool { return g.mode != "exh" && g.mode != "inner" && g.coin(0.2) }
+func (g *G) f0() bool {
+	if g.flagIn != nil {
+		return *g.flagIn
+	}
+	return g.mode != "exh" && g.mode != "inner" && g.coin(0.2)
+}
 func qm(f bool) structs.QueryMeta { return structs.QueryMeta{ResultsFilteredByACLs: f} }
 
 func mkList[E any](g *G, f func(w *bool) E) []E {
@@ -308,7 +313,11 @@ func init() {
 				k = g.rng.Intn(n + 1)
 			}
 			d := g.nodedump(n-k, 0)
-			return &structs.IndexedNodeDump{Dump: d, ImportedDump: g.nodedump(k, n-k), QueryMeta: qm(g.f0())}
+			im := g.nodedump(k, n-k)
+			if g.mode == "inner" && g.coin(0.5) {
+				d, im = im, d // the arranged node sits in the imported dump
+			}
+			return &structs.IndexedNodeDump{Dump: d, ImportedDump: im, QueryMeta: qm(g.f0())}
 		},
 		term: func(v any) T {
 			r := v.(*structs.IndexedNodeDump)
@@ -745,10 +754,27 @@ func init() {
 		},
 		oracle: func(o *orc, in, out any) {
 			i, u := in.(*structs.IndexedNodesWithGateways), out.(*structs.IndexedNodesWithGateways)
-			r1 := o.checkCSNs("Nodes", i.Nodes, u.Nodes)
-			r2 := checkList(o, "Gateways", []*structs.GatewayService(i.Gateways), []*structs.GatewayService(u.Gateways), idGS, o.readGS)
-			r3 := o.checkCSNs("ImportedNodes", i.ImportedNodes, u.ImportedNodes)
-			o.checkFlag(i.ResultsFilteredByACLs, u.ResultsFilteredByACLs, r1 || r2 || r3)
+			// Internal.ServiceDump lists the mappings of ALL gateways (state.DumpGatewayServices): nothing has
+			// authorized a gateway's name before the filter, so both names must be readable here (unlike
+			// Catalog.GatewayServices, which authorizes its one gateway up front).
+			// First everything under the weaker reading (linked service only); only if that is clean is a
+			// returned mapping with an unreadable gateway reported, as its own narrow class.
+			w := &orc{az: o.az, typ: o.typ}
+			r1 := w.checkCSNs("Nodes", i.Nodes, u.Nodes)
+			r2 := checkList(w, "Gateways", []*structs.GatewayService(i.Gateways), []*structs.GatewayService(u.Gateways), idGS, w.readGS)
+			r3 := w.checkCSNs("ImportedNodes", i.ImportedNodes, u.ImportedNodes)
+			w.checkFlag(i.ResultsFilteredByACLs, u.ResultsFilteredByACLs, r1 || r2 || r3)
+			if len(w.fail) > 0 {
+				o.fail, o.kinds, o.extra = w.fail, w.kinds, w.extra
+				return
+			}
+			for _, g := range u.Gateways {
+				if !o.serviceRead("", g.Gateway.Name) {
+					o.bad("gateway-name-returned", "Gateways: mapping %s (service %q) returned although its gateway %q may not be read",
+						idGS(g), g.Service.Name, g.Gateway.Name)
+					return
+				}
+			}
 		}})
 
 	// ---- agent/consul/filter.go ---------------------------------------------------------------------
@@ -781,6 +807,12 @@ func init() {
 					return &structs.TxnResult{Service: s}
 				case 3:
 					return &structs.TxnResult{Check: g.hc(w, "")}
+				}
+				if w == nil && g.coin(0.3) {
+					return &structs.TxnResult{} // no member: never filtered
+				}
+				if g.malformed() && g.coin(0.3) { // two members: the first in KV > Node > Service > Check order decides
+					return &structs.TxnResult{KV: &structs.DirEntry{Key: g.name(nil, keyNames), Flags: uint64(g.id())}, Node: g.node(nil)}
 				}
 				if w != nil && !*w {
 					return &structs.TxnResult{KV: &structs.DirEntry{Key: badName, Flags: uint64(g.id())}}
